@@ -64,8 +64,9 @@ class OLoss(eqx.Module):
     nb: int = eqx.field(static=True)
 
     def __call__(self, params, batch):
-        L = registry()[f"L{self.nb}"]
-        y = L(jnp.concatenate([params.nn_params, jnp.reshape(params.eq_params["a"], (1,)), self.w, flat_batch(batch)]))
+        fb = flat_batch(batch)
+        L = registry()[f"L{fb.shape[0]}"]       # the loss of whatever parts the batch actually carries
+        y = L(jnp.concatenate([params.nn_params, jnp.reshape(params.eq_params["a"], (1,)), self.w, fb]))
         return y[0], {f"t{j}": y[1 + j] for j in range(NT)}
 
     evaluate = __call__
